@@ -607,6 +607,160 @@ theorem C03_fn_signCp
     rw [he] at hcomp
     simp [cls] at hcomp
 
+/-- **the whole `revokeCp` request** of the model follows the generated bodies that `Channel::validate_counterparty_revocation`
+    calls in this order: `SimpleValidator::validate_counterparty_revocation` (head), the secret store step (the model's
+    `provide`, which is the generated `provide_secret` by `C03_fn_provide_secret`), `Validator::set_next_counterparty_revoke_num`
+    (tail).  `fsk` = point of the secret (secp), `pt` the harness-supplied point id. -/
+theorem C03_fn_revokeCp (F : Nat → Secrets.Bytes → Secrets.Bytes)
+    (fsk : Unit → Nat → Nat) (gp : Gen.FnSimpleState.EnforcementState Nat Nat → Nat → Rs.M (Option Nat))
+    (c : Chan) (n sec pt : Nat) (secret : Secrets.Bytes)
+    (hgp : gp (toSV c) n = (toES c).get_previous_counterparty_point n) (hpt : fsk () sec = pt)
+    (hn : n + 3 ≤ Rs.U64_MAX) (hr : c.cpRevoke + 1 ≤ Rs.U64_MAX) :
+    -- head refused: refused, nothing changes
+    (cls (SimpleValidator.validate_counterparty_revocation () strict fsk gp ⟨⟩ (toSV c) n sec) ≠ .ok →
+        revokeCp F c n secret pt = fail c .errPolicy)
+    ∧ (cls (SimpleValidator.validate_counterparty_revocation () strict fsk gp ⟨⟩ (toSV c) n sec) = .ok →
+        -- `INITIAL_COMMITMENT_NUMBER - revoke_num` underflows
+        (n > INITIAL → revokeCp F c n secret pt = fail c .panic)
+        ∧ (n ≤ INITIAL →
+            -- the store refuses the secret (does not chain): refused, nothing changes
+            (∀ st, c.secrets = some st → Secrets.provide F st (INITIAL - n) secret = none →
+                revokeCp F c n secret pt = fail c .errPolicy)
+            -- otherwise the tail decides, and on success its state is the model's (plus the new store)
+            ∧ (∀ ns, (c.secrets = none ∧ ns = none ∨ ∃ st st', c.secrets = some st ∧
+                        Secrets.provide F st (INITIAL - n) secret = some st' ∧ ns = some st') →
+                (revokeCp F c n secret pt).out.res
+                    = cls (Validator.set_next_counterparty_revoke_num strict () (toES c) (n + 1))
+                ∧ (∀ e, Validator.set_next_counterparty_revoke_num strict () (toES c) (n + 1) = .ok e →
+                      toES (revokeCp F c n secret pt).c = e ∧ (revokeCp F c n secret pt).c.secrets = ns)
+                ∧ ((revokeCp F c n secret pt).out.res ≠ .ok → (revokeCp F c n secret pt).c = c)))) := by
+  have hhead := C03_fn_validate_counterparty_revocation fsk gp c n sec hgp (by omega)
+  rw [hpt] at hhead
+  have htail := C03_fn_validator_set_next_counterparty_revoke_num strict rfl c n hn hr
+  have hm : U64.MAX = Rs.U64_MAX := by decide
+  have hov : ¬ (n ≠ c.cpRevoke ∧ n + 1 > U64.MAX) := by rw [hm]; intro h; omega
+  constructor
+  · intro hne
+    rw [hhead] at hne
+    unfold revokeCp
+    by_cases a : n ≠ c.cpRevoke ∧ n + 1 ≠ c.cpRevoke
+    · rw [if_neg hov, if_pos a]
+    · by_cases b : prevPoint c n ≠ some pt
+      · rw [if_neg hov, if_neg a, if_pos b]
+      · simp [a, b] at hne
+  · intro hok
+    rw [hhead] at hok
+    have a : ¬ (n ≠ c.cpRevoke ∧ n + 1 ≠ c.cpRevoke) := by
+      intro a; simp [a] at hok
+    have b : ¬ prevPoint c n ≠ some pt := by
+      intro b; simp [a, b] at hok
+    constructor
+    · intro hbig
+      unfold revokeCp
+      rw [if_neg hov, if_neg a, if_neg b, if_pos hbig]
+    · intro hsmall
+      have hbig : ¬ n > INITIAL := by omega
+      constructor
+      · intro st hst hprov
+        unfold revokeCp
+        rw [if_neg hov, if_neg a, if_neg b, if_neg hbig]
+        simp only [hst, hprov]
+      · intro ns hns
+        rw [htail]
+        unfold revokeCp
+        rw [if_neg hov, if_neg a, if_neg b, if_neg hbig]
+        rcases hns with ⟨h1, h2⟩ | ⟨st, st', h1, h2, h3⟩
+        · subst h2
+          simp only [h1]
+          by_cases t1 : n + 1 + 2 < c.cpCommit
+          · simp only [if_pos t1]; simp [fail]
+          · by_cases t2 : n + 1 + 1 > c.cpCommit
+            · simp only [if_neg t1, if_pos t2]; simp [fail]
+            · by_cases t3 : n + 1 ≠ c.cpRevoke ∧ n + 1 ≠ c.cpRevoke + 1
+              · simp only [if_neg t1, if_neg t2, if_pos t3]; simp [fail]
+              · simp only [if_neg t1, if_neg t2, if_neg t3]; simp [toES]
+        · subst h3
+          simp only [h1, h2]
+          by_cases t1 : n + 1 + 2 < c.cpCommit
+          · simp only [if_pos t1]; simp [fail]
+          · by_cases t2 : n + 1 + 1 > c.cpCommit
+            · simp only [if_neg t1, if_pos t2]; simp [fail]
+            · by_cases t3 : n + 1 ≠ c.cpRevoke ∧ n + 1 ≠ c.cpRevoke + 1
+              · simp only [if_neg t1, if_neg t2, if_pos t3]; simp [fail]
+              · simp only [if_neg t1, if_neg t2, if_neg t3]; simp [toES]
+
+-- non-vacuity of the hypotheses of the composition theorems: commit 4 / revoke 3, sign 4 with point 14; revoke 3
+example :=
+  C03_fn_signCp (fun _ _ => ((), ())) (fun _ _ => ((), ())) (fun _ _ _ _ _ _ => contentRules true "")
+    (fun _ n => (toES { slot := .ready, cpCommit := 4, cpRevoke := 3, curPt := some 13, prevPt := some 12 }).get_previous_counterparty_commit_info n)
+    { slot := .ready, cpCommit := 4, cpRevoke := 3, curPt := some 13, prevPt := some 12 } 4 14 1 true "" rfl rfl
+    (by decide) (by decide) (by decide)
+example :=
+  C03_fn_revokeCp Secrets.shaF (fun _ s => s + 10)
+    (fun _ n => (toES { slot := .ready, cpCommit := 5, cpRevoke := 3, curPt := some 14, prevPt := some 13 }).get_previous_counterparty_point n)
+    { slot := .ready, cpCommit := 5, cpRevoke := 3, curPt := some 14, prevPt := some 13 } 3 3 13 [] rfl rfl
+    (by decide) (by decide)
+
+/-! #### the window invariant on the generated functions
+
+`C03_window` (model, all histories) says `revoke + 1 ≤ commit ≤ revoke + 2` once anything was signed.  Read off the
+GENERATED decision lists alone: whenever the generated `Validator::set_next_counterparty_commit_num` /
+`…_revoke_num` return a state, that state has the window — whatever the state before was (no invariant needed: the two
+guards establish it), for every 64-bit input. -/
+
+/-- window of an `EnforcementState` (generated structure) -/
+def WindowES (e : ES) : Prop :=
+  e.next_counterparty_revoke_num + 1 ≤ e.next_counterparty_commit_num
+  ∧ e.next_counterparty_commit_num ≤ e.next_counterparty_revoke_num + 2
+
+theorem C03_fn_window_after_sign (c : Chan) (n pt info : Nat) (e : ES)
+    (hr : c.cpRevoke + 2 ≤ Rs.U64_MAX) (hc : c.cpCommit + 1 ≤ Rs.U64_MAX)
+    (hpre : n ≤ c.cpRevoke + 1)      -- the check of `validate_counterparty_commitment_tx` (`C03_fn_validate_counterparty_commitment_tx`)
+    (hok : Validator.set_next_counterparty_commit_num strict () (toES c) (n + 1) pt info = .ok e) :
+    WindowES e := by
+  rw [C03_fn_validator_set_next_counterparty_commit_num strict rfl c n pt info hr hc] at hok
+  by_cases a : n + 1 < c.cpRevoke + (if n + 1 = 1 then 1 else 2)
+  · rw [if_pos a] at hok; cases hok
+  · rw [if_neg a] at hok
+    by_cases b : n + 1 ≠ c.cpCommit ∧ n + 1 ≠ c.cpCommit + 1
+    · rw [if_pos b] at hok; cases hok
+    · rw [if_neg b] at hok
+      have hd : (if n + 1 = 1 then 1 else 2) ≥ 1 := by split <;> omega
+      by_cases d : n + 1 = c.cpCommit + 1
+      · rw [if_pos d] at hok
+        have he := (Except.ok.inj hok).symm
+        subst he
+        simp only [WindowES, toES]
+        omega
+      · rw [if_neg d] at hok
+        have he := (Except.ok.inj hok).symm
+        subst he
+        simp only [WindowES, toES]
+        have : n + 1 = c.cpCommit := by
+          by_cases x : n + 1 = c.cpCommit
+          · exact x
+          · exact absurd ⟨x, d⟩ b
+        omega
+
+theorem C03_fn_window_after_revoke (c : Chan) (n : Nat) (e : ES)
+    (hn : n + 3 ≤ Rs.U64_MAX) (hr : c.cpRevoke + 1 ≤ Rs.U64_MAX)
+    (hok : Validator.set_next_counterparty_revoke_num strict () (toES c) (n + 1) = .ok e) :
+    WindowES e := by
+  rw [C03_fn_validator_set_next_counterparty_revoke_num strict rfl c n hn hr] at hok
+  by_cases a : n + 1 + 2 < c.cpCommit
+  · rw [if_pos a] at hok; cases hok
+  · rw [if_neg a] at hok
+    by_cases b : n + 1 + 1 > c.cpCommit
+    · rw [if_pos b] at hok; cases hok
+    · rw [if_neg b] at hok
+      by_cases d : n + 1 ≠ c.cpRevoke ∧ n + 1 ≠ c.cpRevoke + 1
+      · rw [if_pos d] at hok; cases hok
+      · rw [if_neg d] at hok
+        have he := (Except.ok.inj hok).symm
+        subst he
+        simp only [WindowES, toES]
+        omega
+
 end SimpleState
 
 end VlsModel.Props.C03Fn
